@@ -8,3 +8,11 @@ for p in sorted(glob.glob(os.path.join(os.path.dirname(os.path.dirname(os.path.a
     rows.append("| `{}` | {} | {} | {} |".format(m["id"], f(m["breaks"])[:220], f(m["needs_to_manifest"])[:160], f(m["result"])[:260]))
 print("| seeded change | what it breaks | needs, to manifest | which check reported it |\n|---|---|---|---|")
 print("\n".join(rows))
+
+import sys, re
+if "--update" in sys.argv:
+    d = os.path.join(os.path.dirname(os.path.dirname(os.path.abspath(__file__))), "DESIGN.md")
+    s = open(d).read()
+    tab = "| seeded change | what it breaks | needs, to manifest | which check reported it |\n|---|---|---|---|\n" + "\n".join(rows) + "\n"
+    s = re.sub(r"(<!-- SEEDTABLE BEGIN[^\n]*-->\n).*?(<!-- SEEDTABLE END -->)", lambda m: m.group(1) + tab + m.group(2), s, flags=re.S)
+    open(d, "w").write(s)
